@@ -26,3 +26,11 @@ pub use stream::{
     StreamSubscription,
 };
 pub use sync_metrics::{SessionPhase, SyncError};
+
+/// Verification hook (add-only, compiled only with `--cfg p2panda_p2panda_verif`): re-exports of
+/// crate-private stream internals for the external verification harness.
+#[cfg(p2panda_p2panda_verif)]
+pub mod verif {
+    pub use super::acked::Acked;
+    pub use super::sync_metrics::{Aggregator, verif_process};
+}
